@@ -146,6 +146,9 @@ func (t *WebsocketTransport) Read(p []byte) (int, error) {
 }
 
 func (t WebsocketTransport) Write(p []byte) (int, error) {
+	if t.wsConn == nil || t.closeCtx == nil {
+		return 0, errors.New("cannot write: not connected, no websocket connection")
+	}
 	if t.logFile != nil {
 		_, _ = fmt.Fprintf(t.logFile, "SEND:\n%s\n\n", p)
 	}
